@@ -278,9 +278,9 @@ def to_coq(c):
     return f'({vlib.coq_bool(lit)}, {style}, {k}, {s}, {n}, {hexnum(pdu)})'
 
 
-def evaluate(ctx, cases, each=False):
+def evaluate(ctx, cases, each=False, args=()):
     if each:
-        impl = [ctx.harness('cresp', [line(c)])[0] for c in cases]
+        impl = [ctx.harness('cresp', [line(c)], args=args)[0] for c in cases]
     else:
         impl = ctx.harness('cresp', [line(c) for c in cases])
     # spread the expensive cases (long genuine replies) evenly over the coqc shards
@@ -438,6 +438,8 @@ def rtu_canon(i):
 def rtu_stream_family(ctx, n, cases=None):
     cases = cases or gen_rtu_cases(ctx.rng, n)
     impl = ctx.harness('cresp', [rtu_line(c) for c in cases])
+    loud = ctx.harness('cresp', [rtu_line(c) for c in cases], args=['--decode', 'max'])
+    ctx.oblige('rtu-stream:decode-level-max-gives-identical-results', loud == impl, f'{sum(1 for a, b in zip(loud, impl) if a != b)} lines differ')
     ok = ctx.build_models(['Model.SystemClientRtuEval'])
     both = ctx.coq_eval(['Base.Show', 'Model.ClientShow', 'Model.SystemClientRtuEval'], 'eval_rtu_syscase', [rtu_coq(c) for c in cases],
                         case_type='rtu_syscase', per_shard=400) if ok else [None] * len(cases)
@@ -466,7 +468,7 @@ def rtu_stream_family(ctx, n, cases=None):
 
 
 def run(ctx):
-    ctx.translate(['Consts.v', 'ClientTables.v'])
+    ctx.translate(['Consts.v', 'ClientTables.v', 'SessionErrors.v', 'ErrorMaps.v'])
     models_ok = ctx.build_models(REQS + ['Spec.ClientCodecSpec'])
     ctx.prove()
     if ctx.tier == 'thorough':
@@ -480,7 +482,7 @@ def run(ctx):
         return
     if ctx.replay and 'cases' in ctx.replay:
         cases = [(c[0], int(c[1]), int(c[2]), int(c[3]), int(c[4]), tuple(c[5]), int(c[6]) if len(c) > 6 else 0, int(c[7]) if len(c) > 7 else 0) for c in ctx.replay['cases']]
-        results = evaluate(ctx, cases, each=True)
+        results = evaluate(ctx, cases, each=True, args=(['--decode', 'max'] if ctx.replay.get('decode') == 'max' else ()))
     else:
         cases = gen_cases(ctx, quick)
         ctx.log(f'{len(cases)} cases')
@@ -523,11 +525,31 @@ def run(ctx):
             if n_model <= 2:
                 ctx.violation('model-differs-from-impl', f'{line(c)[:120]}: impl `{impl[:80]}` model `{model[:80]}`',
                               {'cases': [jcase(c)], 'impl': impl, 'model': model, 'spec': spec}, no_failing_input=True)
-    if not quick and not ctx.replay:
-        k = min(len(cases), 20000)
+    if not ctx.replay:
+        # the same cases with every decode level at its maximum: the "PDU RX" Display walks (BitIteratorDisplay /
+        # RegisterIteratorDisplay at DataValues over the reply, echo Display), frame and phys dumps really execute
+        # (C04_log_response): no panic, identical lines
+        k = min(len(cases), 40000)
         loud = ctx.harness('cresp', [line(c) for c in cases[:k]], args=['--decode', 'max'])
         diff = [i for i in range(k) if loud[i] != results[i][0]]
         ctx.oblige('decode-level-max-gives-identical-results', not diff, f'{len(diff)} of {k} lines differ, first: {line(cases[diff[0]])[:100] if diff else ""}')
+        for i in diff[:2]:
+            c = cases[i]
+            ctx.violation(f'client.{KIND_NAME[c[1]]}.logging-at-decode-max-changes-the-result',
+                          f'{KIND_NAME[c[1]]} via {STYLE_NAME[c[7]]} API start={c[3]} count/value={c[4]} over {"TCP" if c[0] == "T" else "RTU"}, reply PDU '
+                          f'{"".join("%02X" % b for b in c[5])[:80]}: with every decode level at its maximum the client returned `{loud[i][:80]}`, '
+                          f'with logging off `{results[i][0][:80]}`; the Spec says `{results[i][2][:80]}` [cresp --decode max: {line(c)[:160]}]',
+                          {'cases': [jcase(c)], 'decode': 'max', 'impl': loud[i], 'impl_without_logging': results[i][0], 'spec': results[i][2]})
+        for c, r0 in zip(cases[:k], results[:k]):
+            if r0[0].startswith('OK ') and c[1] in (1, 2, 3, 4):
+                if c[3] + c[4] == 65536:
+                    bump('logged-rx:range-ends-at-65535')
+                if c[4] == LIMIT[c[1]]:
+                    bump(f'logged-rx:count={LIMIT[c[1]]}')
+                if c[1] in (1, 2) and c[4] % 8:
+                    bump('logged-rx:bits-not-multiple-of-8')
+        lmiss = [x for x in ('logged-rx:range-ends-at-65535', 'logged-rx:count=2000', 'logged-rx:count=125', 'logged-rx:bits-not-multiple-of-8') if classes.get(x, 0) < 3]
+        ctx.oblige('decode-level-max-pass-reaches-expected-classes', not lmiss, f'missing={lmiss}')
     ctx.oblige('correspondence:handle-response-vs-model', n_model == 0, f'{n_model} cases where the implementation differs from the model only (error class)')
     ctx.oblige('correspondence:handle-response-vs-spec', n_spec == 0, f'{n_spec} cases where the implementation differs from the Spec')
     if not ctx.replay:
